@@ -764,8 +764,8 @@ func c11RunOrder(c *eng.Ctx, r *eng.Report) {
 		found := false
 		for _, b := range fn.Blocks {
 			for _, in := range b.Instrs {
-				if bo, ok := in.(*ssa.BinOp); ok && bo.Op == token.QUO {
-					if k, isK := eng.ConstInt(bo.Y); isK && k == 64 {
+				if bo, ok := in.(*ssa.BinOp); ok && (bo.Op == token.QUO || bo.Op == token.SHR) {
+					if k, isK := eng.ConstInt(bo.Y); isK && ((bo.Op == token.QUO && k == 64) || (bo.Op == token.SHR && k == 6)) {
 						// used as subtrahend
 						for _, ref := range *bo.Referrers() {
 							if sb, ok := ref.(*ssa.BinOp); ok && sb.Op == token.SUB && sb.Y == ssa.Value(bo) && sb.X == bo.X {
@@ -817,10 +817,11 @@ func c11SixtyThreeSixtyFourths(c *eng.Ctx, r *eng.Report) {
 					continue
 				}
 				q, ok := bo.Y.(*ssa.BinOp)
-				if !ok || q.Op != token.QUO || q.X != bo.X {
+				if !ok || q.X != bo.X {
 					continue
 				}
-				if k, isK := eng.ConstInt(q.Y); !isK || k != 64 {
+				// a/64, or the same thing spelled a>>6
+				if k, isK := eng.ConstInt(q.Y); !isK || !((q.Op == token.QUO && k == 64) || (q.Op == token.SHR && k == 6)) {
 					continue
 				}
 				if a, isA := bo.X.(*ssa.BinOp); isA && a.Op == token.SUB && isParamNamed(a.X, "availableGas") && isParamNamed(a.Y, "base") {
